@@ -112,8 +112,11 @@ func c11r1(c *core.Ctx) {
 		lastVar := ""
 		core.InspectNoLits(f.Body, func(n ast.Node) bool {
 			if as, ok := n.(*ast.AssignStmt); ok && len(as.Lhs) == 1 && len(as.Rhs) == 1 && as.Tok == token.DEFINE {
-				if strings.Contains(m.ExprString(as.Rhs[0]), "t.len - 1") || strings.Contains(m.ExprString(as.Rhs[0]), ".len - 1") {
-					lastVar = m.ExprString(as.Lhs[0])
+				// <table length> - 1, possibly converted
+				if be, isB := ast.Unparen(m.StripConv(as.Rhs[0])).(*ast.BinaryExpr); isB && be.Op == token.SUB && fieldKeyOf(m, m.StripConv(be.X)) == "table.len" {
+					if tv, isC := m.Info.Types[be.Y]; isC && tv.Value != nil && tv.Value.String() == "1" {
+						lastVar = m.ExprString(as.Lhs[0])
+					}
 				}
 			}
 			return true
